@@ -197,7 +197,10 @@ Inductive op :=
 | MutDirect (new : layer)   (* parameter_mutation / activation_mutation called directly: no hook       *)
 | Resize (new : layer)      (* _reinit_bandit_grads(agent, actor, layer before the mutation)            *)
 | Clone                     (* agent.clone(): hook on the clone, then copy_attributes                   *)
-| Reload.                   (* save_checkpoint + load / load_checkpoint                                 *)
+| Reload                    (* save_checkpoint + load / load_checkpoint                                 *)
+| SetLam (l : T).           (* Mutations.rl_hyperparam_mutation drew `lamb` (a legal HyperparameterConfig entry):
+                               agent.lamb = l, sigma_inv untouched. On the current tree Mutations.mutation then runs
+                               the init_params hook (a MutHook op), which re-initialises with the NEW lambda.    *)
 
 Definition init_params (l : T) (ly : layer) : bstate :=
   {| lam := l; live := ly; bound := true; numel := layer_numel ly;
@@ -217,6 +220,7 @@ Definition step (s : bstate) (o : op) : bstate :=
          sig := reinit_bandit_grads zero true (live s) new (div one (lam s)) (sig s) |}
   | Clone => {| lam := lam s; live := live s; bound := true; numel := numel s; sig := sig s |}
   | Reload => {| lam := lam s; live := live s; bound := reload_rebinds; numel := numel s; sig := sig s |}
+  | SetLam l => {| lam := l; live := live s; bound := bound s; numel := numel s; sig := sig s |}
   end.
 
 Definition run (s : bstate) (ops : list op) : bstate := fold_left step ops s.
